@@ -1,5 +1,5 @@
 From Coq Require Import ExtrOcamlBasic.
-From ChibiV Require Import Common.ExtractBase C12.Model C12.Spec C12.PortModel.
+From ChibiV Require Import Common.ExtractBase C12.Model C12.Spec C12.PortModel C12.RangeModel.
 Extraction "model.ml" ext_base
   sexp_utf8_initial_byte_count sexp_utf8_char_byte_count sexp_utf8_encode_char sexp_string_utf8_ref
   verif_c12_unbox_character verif_c12_make_character
@@ -7,4 +7,5 @@ Extraction "model.ml" ext_base
   substring string_copy string_append string_concatenate make_string of_utf8_shared to_utf8 slice
   cursor_next cursor_prev cursor_end step run spec_step spec_run
   read_byte read_char peek_char read_string read_line open_string_port open_fd_port pending
-  write_char write_chars out_bytes open_output_string.
+  write_char write_chars write_bytes out_bytes open_output_string
+  op_write_string display_string write_string_io string_to_utf8_range string_fill string_copy_bang string_map string_cmp.
